@@ -14,7 +14,8 @@ namespace Sshuttle.FwDialogue
 
 A changed format string, split bound or read size breaks one of these instead of going unnoticed. -/
 
-theorem C13_pin_readline : 0 < Gen.C13.READLINE_MAX ∧ Gen.C13.HELPER_JOINS_PIECES = true := by decide
+theorem C13_pin_readline : 0 < Gen.C13.READLINE_MAX ∧ Gen.C13.HELPER_JOINS_PIECES = true ∧
+    Gen.C13.READ_ERROR_DROPS_LINE = true := by decide
 theorem C13_pin_splits :
     Gen.C13.COMMA_MAXSPLITS = [5, 1, 1] ∧ Gen.C13.HOST_MAXSPLIT = 1 ∧ Gen.C13.GO_MAXSPLIT = 4 := by decide
 theorem C13_pin_formats :
@@ -55,9 +56,8 @@ theorem C13_plan_roundtrip (p : Plan) (hw : PlanWf p) (hosts : List (Bytes × By
       rcases List.mem_append.mp hl with h | h
       · exact planLines_isLine p hw l h
       · exact hostLines_isLine hosts hh l h
-    have := rawLines_lines Gen.C13.READLINE_MAX C13_pin_readline.1 (planLines p ++ hostLines hosts) []
-      hlines (by simp)
-    simp only [List.append_nil, List.flatten_append, if_true] at this
+    have := helperLines_lines (planLines p ++ hostLines hosts) hlines
+    simp only [List.flatten_append] at this
     rw [this, parse_planLines p hw, hostLines, hostLoop_hosts hosts hh]
 
 /-- The recorded `setup_firewall` calls are therefore those of the plan itself. -/
@@ -86,12 +86,12 @@ over `[0-9.]` — of any length, so in particular up to the DNS limit of 253 cha
 `sethostip` writes one line and the helper reads back exactly that pair. -/
 theorem C13_host_roundtrip (name ip : Bytes) (hn : name.all isNameByte = true) (hi : ip.all isIpByte = true) :
     ∃ l, renderHost name ip = some l ∧
-      hostLoop (rawLines Gen.C13.READLINE_MAX l) = ([(name, ip)], .eof) := by
+      hostLoop (helperLines l) = ([(name, ip)], .eof) := by
   have hok : HostOk (name, ip) := ⟨hn, hi⟩
   refine ⟨hostBody (name, ip) ++ [10], renderHost_ok (name, ip) hok, ?_⟩
-  have := rawLines_lines Gen.C13.READLINE_MAX C13_pin_readline.1 [hostBody (name, ip) ++ [10]] []
-    (by intro l hl; simp at hl; subst hl; exact ⟨_, rfl, hostBody_nl _ hok⟩) (by simp)
-  simp only [List.flatten_cons, List.flatten_nil, List.append_nil, if_true] at this
+  have := helperLines_lines [hostBody (name, ip) ++ [10]]
+    (by intro l hl; simp at hl; subst hl; exact ⟨_, rfl, hostBody_nl _ hok⟩)
+  simp only [List.flatten_cons, List.flatten_nil, List.append_nil] at this
   rw [this]
   exact hostLoop_hosts [(name, ip)] (by intro h hh; simp at hh; subst hh; exact hok)
 
@@ -111,7 +111,7 @@ written by `sethostip` one after the other, the host map the helper holds at the
 every name, exactly the last address announced for it (and nothing for a name never announced). -/
 theorem C13_hostmap_last_writer (hosts : List (Bytes × Bytes)) (hh : ∀ h ∈ hosts, HostOk h) (n : Str) :
     ∃ hl, hosts.mapM (fun h => renderHost h.1 h.2) = some hl ∧
-      mapLookup (hostmapOf (hostLoop (rawLines Gen.C13.READLINE_MAX hl.flatten)).1) n = lastFor hosts n := by
+      mapLookup (hostmapOf (hostLoop (helperLines hl.flatten)).1) n = lastFor hosts n := by
   refine ⟨hostLines hosts, ?_, ?_⟩
   · induction hosts with
     | nil => rfl
@@ -119,9 +119,7 @@ theorem C13_hostmap_last_writer (hosts : List (Bytes × Bytes)) (hh : ∀ h ∈ 
       have := ih (fun x hx => hh x (by simp [hx]))
       simp only [List.mapM_cons, renderHost_ok h (hh h (by simp)), this, hostLines, List.map_cons]
       rfl
-  · have := rawLines_lines Gen.C13.READLINE_MAX C13_pin_readline.1 (hostLines hosts) []
-      (hostLines_isLine hosts hh) (by simp)
-    simp only [List.append_nil, if_true] at this
+  · have := helperLines_lines (hostLines hosts) (hostLines_isLine hosts hh)
     rw [this, hostLines, hostLoop_hosts hosts hh]
     unfold hostmapOf
     rw [mapLookup_fold]
@@ -228,8 +226,7 @@ theorem C13_truncation (p : Plan) (hw : PlanWf p) (j : Nat) (hj : j < (planLines
     apply planLines_isLine p hw
     rw [planLines_front]
     exact List.mem_append_left _ (List.mem_of_mem_take hl)
-  have hraw := rawLines_lines Gen.C13.READLINE_MAX C13_pin_readline.1 ((planFront p).take j) [] hlines (by simp)
-  simp only [List.append_nil, if_true] at hraw
+  have hraw := helperLines_lines ((planFront p).take j) hlines
   unfold helper
   rw [htake, hraw]
   cases hparse : parse ((planFront p).take j) with
@@ -242,6 +239,26 @@ theorem C13_truncation (p : Plan) (hw : PlanWf p) (j : Nat) (hj : j < (planLines
     rw [this] at hgo
     cases hgo
 
+/-- **A half-received line.** Complete lines followed by an unterminated tail (the input ended,
+or — the harness maps a failed read to this — the read failed inside the line): the helper reads
+the complete lines as they are, and the tail is handed out as one more line exactly when the
+source keeps an unfinished line at end of input (`drops = false`, the code as it is: regenerated
+`HELPER_DROPS_UNFINISHED_LINE`); with `drops = true` (proposed_fixes/C13-helper-drops-unfinished-last-line.diff)
+a prefix of a line is never delivered as a line. -/
+theorem C13_unfinished_line (drops : Bool) (ls : List Bytes) (tail : Bytes)
+    (hl : ∀ l ∈ ls, IsLine l) (ht : 10 ∉ tail) :
+    rawLines Gen.C13.READLINE_MAX drops (ls.flatten ++ tail) =
+      ls ++ (if tail = [] ∨ drops = true then [] else [tail]) :=
+  rawLines_lines Gen.C13.READLINE_MAX drops C13_pin_readline.1 ls tail hl ht
+
+/-- The full statement "a truncated dialogue is never acted on" is false of the code as it is for a
+cut inside a `HOST` line: `HOST n,1.2` followed by end of input (the client announced `1.2.3.4`)
+puts the pair (`n`, `1.2`) into the host map; with the proposed repair nothing is recorded. -/
+theorem C13_truncation_midline_false :
+    hostLoop (rawLines 128 false (HOST_ ++ [110, 44, 49, 46, 50])) = ([([110], [49, 46, 50])], .eof) ∧
+    hostLoop (rawLines 128 true (HOST_ ++ [110, 44, 49, 46, 50])) = ([], .eof) := by
+  decide
+
 /-- Malformed input, whatever it is: the helper's outcome is one of *return before anything*,
 *an exception before the `try:` block* (nothing set up), or *set-up followed by the loop that
 always leaves through `finally`* — and set-up requires a decodable line starting with `GO `
@@ -249,10 +266,10 @@ after the other sections were accepted. -/
 theorem C13_malformed (stream : Bytes) :
     helper stream = .noInput ∨ (∃ e, helper stream = .before e) ∨
     (∃ s hs fin, helper stream = .ran s hs fin ∧
-      ∃ raw ∈ rawLines Gen.C13.READLINE_MAX stream, ∃ line, decodeLine raw = some line ∧
+      ∃ raw ∈ helperLines stream, ∃ line, decodeLine raw = some line ∧
         startsWith line GO_ = true) := by
   unfold helper
-  cases h : parse (rawLines Gen.C13.READLINE_MAX stream) with
+  cases h : parse (helperLines stream) with
   | noInput => exact Or.inl rfl
   | before e => exact Or.inr (Or.inl ⟨e, rfl⟩)
   | ran s hs fin => exact Or.inr (Or.inr ⟨s, hs, fin, rfl, parse_ran_has_go _ s hs fin h⟩)
